@@ -79,7 +79,10 @@ fn lens_of(p: &Parameters) -> [f64; 7] { [p.a1, p.a2, p.b, p.c1, p.c2, p.c3, p.c
 
 pub fn replay(input: &str, output: &str) {
     quiet_panics();
-    let lines = read_ndjson(input);
+    let mut lines = read_ndjson(input);
+    // (the second pass of the check reads the variants in the opposite order: what a file means does not depend on
+    //  the files read before it in the same process)
+    if std::env::var("VERIF_ORDER").map(|x| x == "reverse").unwrap_or(false) { lines.reverse(); }
     let mut out = Out::create(output);
     let mut r = rng(1919);
     let mut evals = 0u64;
